@@ -18,8 +18,6 @@ import time
 from fractions import Fraction
 from typing import Any, Dict, List, Optional, Sequence, Tuple
 
-import z3
-
 ALL_MODULES = [
     "si", "us", "avoirdupois", "troy", "energy", "astronomical", "natural", "metric",
     "iec", "iso", "eu", "fff", "apocrypha", "computing", "acoustics", "electronics",
@@ -178,7 +176,14 @@ class Oracle:
         size: Dict[Any, Tuple[Fraction, Tuple, bool]] = {}
         nanchor = [0]
 
+        from measured import Number
+
         def anchor(u: Any) -> None:
+            if u.dimension is Number:
+                # dimensionless base units (radian, ...) count as the pure number 1, the SI
+                # convention; they stay distinguishable as objects, not as sizes
+                size[u] = (Fraction(1), (), True)
+                return
             size[u] = (Fraction(1), ((nanchor[0], Fraction(1)),), True)
             nanchor[0] += 1
 
@@ -303,10 +308,16 @@ class Oracle:
         `unsat` the unsat core, minimised by deletion, is a violating set of declarations;
         the last of them in source order is dropped and the query repeated.
         """
-        eqs = self.equations()
-        xs: Dict[Any, z3.ArithRef] = {}
+        import z3
 
-        def x(u: Any) -> z3.ArithRef:
+        def _q(v: float) -> Any:
+            f = Fraction(v)
+            return z3.Q(f.numerator, f.denominator)
+
+        eqs = self.equations()
+        xs: Dict[Any, Any] = {}
+
+        def x(u: Any) -> Any:
             if u not in xs:
                 xs[u] = z3.Real(f"x{len(xs)}")
             return xs[u]
@@ -377,6 +388,54 @@ class Oracle:
                 "solver_s": solver_s, "declarations": len(cons), "potentials": len(xs)}
 
 
-def _q(x: float) -> z3.ArithRef:
-    f = Fraction(x)
-    return z3.Q(f.numerator, f.denominator)
+def cycle_residual(decls: List[Decl], tol_per_degree: float = 1e-5) -> Optional[Dict[str, Any]]:
+    """Pure-Python (no solver) confirmation of one inconsistent core: find the integer
+    combination of the given declarations whose unit coefficients cancel and compare its
+    log-residual with the sum of the edges' tolerances."""
+    orc = Oracle.__new__(Oracle)
+    orc.decls = decls
+    eqs = [e for e in orc.equations()]
+    units: List[Any] = []
+    for coefs, _, _ in eqs:
+        for u in coefs:
+            if u not in units:
+                units.append(u)
+    n = len(eqs)
+    # nullspace of A^T (units x declarations): solve sum_e lam_e * A[e][u] = 0 for all u
+    rows = [[Fraction(eqs[e][0].get(u, 0)) for e in range(n)] for u in units]
+    piv_cols: List[int] = []
+    r = 0
+    for c in range(n):
+        pr = next((i for i in range(r, len(rows)) if rows[i][c] != 0), None)
+        if pr is None:
+            continue
+        rows[r], rows[pr] = rows[pr], rows[r]
+        pv = rows[r][c]
+        rows[r] = [v / pv for v in rows[r]]
+        for i in range(len(rows)):
+            if i != r and rows[i][c] != 0:
+                f = rows[i][c]
+                rows[i] = [a - f * b for a, b in zip(rows[i], rows[r])]
+        piv_cols.append(c)
+        r += 1
+    free = [c for c in range(n) if c not in piv_cols]
+    if not free:
+        return None
+    best = None
+    for fc in free:
+        lam = [Fraction(0)] * n
+        lam[fc] = Fraction(1)
+        for i, pc in enumerate(piv_cols):
+            lam[pc] = -rows[i][fc]
+        residual = 0.0
+        allowance = 0.0
+        for (coefs, val, d), l in zip(eqs, lam):
+            g = sum(abs(e) for e in d.a_unit.factors.values()) + \
+                sum(abs(e) for e in d.b_unit.factors.values())
+            residual += float(l) * (math.log(val.numerator) - math.log(val.denominator))
+            allowance += abs(float(l)) * math.log1p(tol_per_degree * max(g, 1))
+        cand = {"lambda": [str(l) for l in lam], "residual": abs(residual),
+                "allowance": allowance, "inconsistent": abs(residual) > allowance}
+        if best is None or cand["inconsistent"]:
+            best = cand
+    return best
